@@ -94,6 +94,16 @@ pub struct Dart {
     pub(crate) end: usize,
 }
 
+#[cfg(honeycomb_verif)]
+impl Dart {
+    /// Verification hook, only built with `--cfg honeycomb_verif`: indices, in the coordinate
+    /// table, of the vertices the dart starts from and points to.
+    #[must_use]
+    pub fn verif_ends(&self) -> (usize, usize) {
+        (self.start, self.end)
+    }
+}
+
 /// Beta component.
 #[derive(Component, Clone)]
 pub struct Beta(pub u8, pub usize, pub usize); // beta id, v0_id, v1_id ?
